@@ -43,8 +43,12 @@ FINISH = dict(
          "type x L in 1..12); polling: authorisation / order objects reaching the awaited status after "
          "0,5,19,20,25 polls or never.  One daemon run per plan; the CA log is cut into logical requests "
          "(consecutive POSTs of identical URL+payload+key), each judged by Spec.C08.holds 10 (pollHolds 20) "
-         "and compared with Http.post/Http.poll fed the served answers.  non-trivial = at least one faulty "
-         "answer or one poll served.  Text -> object layer (py/ext/acmeobj.py): valid Let's-Encrypt-shaped "
+         "and compared with Http.post/Http.poll fed the served answers.  py/ext/c08x.py adds plans with faults at "
+         "two requests of one attempt, runs mixing several recoverable types, recoverable runs ended by another "
+         "kind of answer (other problem, untyped, non-JSON, cut connection, body cut short, bad Replay-Nonce), "
+         "errors while polling objects that need 15..20 polls, all poll phases long at once, two authorizations "
+         "(budgets per object; plans on the second authorization), empty / non-ASCII Replay-Nonce values.  "
+         "non-trivial = at least one faulty answer or one poll served.  Text -> object layer (py/ext/acmeobj.py): valid Let's-Encrypt-shaped "
          "directory / account / order / authorization / challenge / problem / identifier texts from a schema and "
          "their mutations (member deleted / null / every other JSON type / duplicated / renamed, enum words in "
          "other cases and in object form, number forms up to the f64 overflow boundary, escapes incl. unpaired "
@@ -268,7 +272,7 @@ def run_one(scn, helper, base):
     ca = CA(helper, rules=copy.deepcopy(scn["rules"]), opts=dict(scn.get("ca_opts") or {}))
     ca.start()
     try:
-        obs = flow.run_scenario(root, CERTS, helper=helper, ca=ca, n_postop=1, timeout=60,
+        obs = flow.run_scenario(root, scn.get("certs") or CERTS, helper=helper, ca=ca, n_postop=1, timeout=60,
                                 with_file_hooks=False, settle=0.0)
     finally:
         ca.stop()
@@ -284,7 +288,8 @@ def run_one(scn, helper, base):
                          "hdr": {k: hdr.get(k) for k in ("nonce", "kid", "jwk", "alg", "url")}})
         elif e["kind"] == "ans":
             slim.append({"kind": "ans", "seq": e["seq"], "for": e["for"], "status": e.get("status"),
-                         "nonce": e.get("nonce"), "drop": e.get("drop", False)})
+                         "nonce": e.get("nonce"), "drop": e.get("drop", False),
+                         "cut": e.get("cut_after") is not None and e["cut_after"] < (e.get("len") or 0)})
     run = {"ca": slim, "bodies": dict(ca.bodies), "completed": obs["completed"], "rc": obs["rc"],
            "postop": ({"t": pos[0]["t"], "args": flow.hook_args(pos[0])} if pos else None),
            "stderr_tail": obs["stderr"][-1500:]}
@@ -340,6 +345,9 @@ def classify(an, text, phase):
             res["type"] = parsed["type"]
             cls = "recoverableProblem" if parsed["type"] in RECOVERABLE_URNS else "otherProblem"
             body = {"type": parsed["type"]}
+    if an.get("cut"):
+        # the body ended before the announced length (Spec/C08.lean: `dropped`; the headers did arrive)
+        cls, body = "dropped", "unreadable"
     if m["nonce"] == "invalid":
         cls = "invalidNonceHdr"
     m["body"] = body
@@ -380,14 +388,15 @@ def analyse(scn, run):
         return m
 
     newest, stored, pending, txs = None, None, [], []
-    seen_chall = seen_final = False
+    seen_final = False
+    fetched, ready = set(), set()    # authorization URLs requested so far / … before the last challenge POST
     for rq in reqs:
         an = answers.get(rq["gidx"])
         text = bodies.get(rq["gidx"])
         if rq["method"] == "POST":
             phase = None
-            if rq["rk"] == "authz" and seen_chall:
-                phase = "authz"
+            if rq["rk"] == "authz" and rq["path"] in ready:
+                phase = "authz"      # polled: its challenge has been answered (the first requests fetch it)
             elif rq["rk"] == "order":
                 phase = "orderValid" if seen_final else "orderReady"
             c = classify(an, text, phase)
@@ -401,8 +410,10 @@ def analyse(scn, run):
                         "c": c, "gidx": rq["gidx"]})
             pending = []
             stored = c["nonce"]
+            if rq["rk"] == "authz":
+                fetched.add(rq["path"])
             if rq["rk"] == "challenge":
-                seen_chall = True
+                ready |= fetched
             if rq["rk"] == "finalize":
                 seen_final = True
         else:
@@ -632,6 +643,8 @@ def run(ctx):
         return replay(ctx)
     ctx.prove()
     scns = build_scenarios(ctx, tables["acme_errors"])
+    from ext import c08x
+    c08x.add(ctx, tables["acme_errors"], scns)       # two positions, mixed runs, run-then-X, polls with errors, …
     for c in vlib.corpus("C08"):       # stored fault plans: {"pos","label","L","class","rules","ca_opts"}
         scns.append(dict(c, id=len(scns)))
     helper = mockca.Helper()
